@@ -160,6 +160,9 @@ func solveAll(obs []*Oblig, dir string, timeoutS, jobs, seed int, which []int, w
 	var wg sync.WaitGroup
 	sem := make(chan struct{}, jobs)
 	for i, o := range obs {
+		if o.Result != nil && o.Result.Backend == "effects-analysis" {
+			continue // decided statically
+		}
 		wg.Add(1)
 		sem <- struct{}{}
 		go func(i int, o *Oblig) {
